@@ -25,6 +25,8 @@ from engine.src import FunctionInfo, own_nodes, own_nodes_incl_lambda, src_of, A
 from engine import cysrc
 from engine.util import is_self_attr, enclosing_tests
 from .pairing_rules import check_coindex
+from .sem import expander, ctext, want, xt, conds_at, bind, calls, returns, stmt_of, self_attr_value_texts, defs_texts, gather_alternatives, same_selection, cy_expander, cy_fi, cy_returns
+from engine import norm as _norm
 
 RULES = {
     "C09.a": "Python side: leaf rows/targets/weights co-indexed; one leaf numbering at fit and predict; intercept column position agrees with the Cython criterion",
@@ -39,62 +41,118 @@ LINEAR = "mlinsights/mlmodel/piecewise_tree_regression_criterion_linear.pyx"
 SIMPLE = "mlinsights/mlmodel/piecewise_tree_regression_criterion.pyx"
 
 
+def _loop_idx(x: ast.AST, over: str) -> bool:
+    """x is the position variable of a loop over `over` (enumerate / range(len))"""
+    return isinstance(x, ast.Call) and isinstance(x.func, ast.Name) and x.func.id == "__it__" and ast.unparse(x.args[0]) == over and "idx" in ast.unparse(x.args[1])
+
+
+def _unwrap_rows(x: ast.AST) -> ast.AST:
+    while True:
+        if isinstance(x, ast.Call) and isinstance(x.func, ast.Attribute) and x.func.attr in ("ravel", "flatten", "copy", "astype", "squeeze") :
+            x = x.func.value
+        elif isinstance(x, ast.Call) and ast.unparse(x.func).split(".")[-1] in ("asarray", "array", "ravel", "squeeze") and x.args:
+            x = x.args[0]
+        else:
+            return x
+
+
 def check_a(ck, repo):
     ci = repo.cls(PY, "PiecewiseTreeRegressor")
     fr, pr, pl = ci.methods.get("_fit_reglin"), ci.methods.get("_predict_reglin"), ci.methods.get("predict_leaves")
     if fr is None or pr is None or pl is None:
         raise AnalysisError("anchor vanished: PiecewiseTreeRegressor._fit_reglin/_predict_reglin/predict_leaves")
-    n = check_coindex(ck, "C09.a", repo, fr, methods={"create"}, min_args=3)
-    if n == 0:
-        ck.violated("C09.a", fr, "LinearRegressorCriterion.create(xs, ys, ws)", "the per-leaf regression is no longer built from mask-selected X, y, sample_weight")
-    # the mask is pred_leaves == i, i enumerating leaves_index_; betas_ row i receives the coefficients
-    loops = [l for l in own_nodes(fr.node) if isinstance(l, ast.For) and "leaves_index_" in src_of(l.iter)]
-    if len(loops) != 1:
-        ck.unknown("C09.a", fr, "for i, _ in enumerate(self.leaves_index_)", "leaf loop not found")
+    ex = expander(repo)
+    pX, py_, psw = fr.named_params[1:4]
+    creates = calls(fr, lambda c: isinstance(c.func, ast.Attribute) and c.func.attr == "create")
+    if len(creates) != 1:
+        ck.violated("C09.a", fr, "LinearRegressorCriterion.create(xs, ys, ws)", f"{len(creates)} constructions of the per-leaf regression found")
     else:
-        l = loops[0]
-        iv = l.target.elts[0].id if isinstance(l.target, ast.Tuple) else (l.target.id if isinstance(l.target, ast.Name) else None)
-        masks = [s for s in ast.walk(l) if isinstance(s, ast.Assign) and src_of(s.targets[0]) == "ind"]
-        okm = len(masks) == 1 and src_of(masks[0].value) in (f"pred_leaves == {iv}", f"{iv} == pred_leaves")
-        ck.verdict(okm, "C09.a", fr, masks[0] if masks else "ind = pred_leaves == i", "leaf i's rows are those predict_leaves maps to i", "the rows of leaf i are not selected by pred_leaves == i")
-        beta = [c for c in ast.walk(l) if isinstance(c, ast.Call) and isinstance(c.func, ast.Attribute) and c.func.attr == "node_beta"]
-        okb = len(beta) == 1 and src_of(beta[0].args[0]) == f"self.betas_[{iv}, :]"
-        ck.verdict(okb, "C09.a", fr, beta[0] if beta else "dec.node_beta(self.betas_[i, :])", "coefficients of leaf i stored in row i of betas_", "coefficients are not stored in the row of their own leaf")
-        # every leaf goes through the least-squares solver: no early exit from the loop
-        # body before node_beta, no other store into betas_
-        early = [x for x in ast.walk(l) if isinstance(x, (ast.Continue, ast.Break, ast.Return)) and beta and x.lineno < beta[0].lineno]
-        ck.verdict(not early, "C09.a", fr, early[0] if early else "leaf loop body reaches node_beta", "every leaf's coefficients come from the least-squares solver", "some leaves skip the least-squares solve (early continue/break): their prediction is not the OLS fit of the leaf's rows")
-        stores = [x for x in own_nodes(fr.node) if isinstance(x, (ast.Assign, ast.AugAssign)) and any(isinstance(t, ast.Subscript) and src_of(t.value) == "self.betas_" for t in (x.targets if isinstance(x, ast.Assign) else [x.target]))]
-        ck.verdict(not stores, "C09.a", fr, stores[0] if stores else "no direct store into self.betas_[...]", "betas_ rows are written only by node_beta", "betas_ is also written directly, bypassing the per-leaf least squares")
-    plv = [s for s in own_nodes(fr.node) if isinstance(s, ast.Assign) and src_of(s.targets[0]) == "pred_leaves"]
-    ck.verdict(len(plv) == 1 and src_of(plv[0].value) == "self.predict_leaves(X)", "C09.a", fr, plv[0] if plv else "pred_leaves = self.predict_leaves(X)", "training rows are numbered by predict_leaves", "fit does not number leaves through predict_leaves")
-    shp = [s for s in own_nodes(fr.node) if isinstance(s, ast.Assign) and any(is_self_attr(t, "betas_") for t in s.targets)]
-    ck.verdict(len(shp) == 1 and src_of(shp[0].value) == "numpy.empty((len(self.leaves_index_), X.shape[1] + 1))", "C09.a", fr, shp[0] if shp else "self.betas_ = ...", "betas_ has one row per leaf and n_features + 1 columns", "betas_ is not (number of leaves) x (n_features + 1)")
+        c = creates[0]
+        args = list(c.args) + [k.value for k in c.keywords]
+        alts = [gather_alternatives(repo, fr, a, c) for a in args[:3]]
+        if len(alts) < 3:
+            ck.violated("C09.a", fr, c, "the per-leaf regression is no longer built from mask-selected X, y, sample_weight")
+        else:
+            bases = [{a[1] for a in v} for v in alts]
+            ck.verdict(bases == [{pX}, {py_}, {psw}], "C09.a", fr, f"{src_of(c)}: sources", "leaf features, targets and weights are taken from X, y, sample_weight", f"create() receives selections of {bases}, not of ({pX}, {py_}, {psw})")
+            sel = [{(a[0], a[2], a[3]) for a in v} for v in alts]
+            same = same_selection(alts)
+            ck.verdict(same, "C09.a", fr, c, "X, y and sample_weight of a leaf are selected by the same row index", f"create(): X is selected with {sorted(x[1] or '?' for x in sel[0])}, y with {sorted(x[1] or '?' for x in sel[1])}, sample_weight with {sorted(x[1] or '?' for x in sel[2])}: rows, targets and weights of a leaf are not kept together")
+            # the mask: predict_leaves(X) == position of the leaf in leaves_index_
+            lt = None
+            for conds, base, rows, leaves in alts[0]:
+                try:
+                    r = ast.parse(rows, mode="eval").body if rows else None
+                except SyntaxError:
+                    r = None
+                okm = False
+                if isinstance(r, ast.Compare) and len(r.ops) == 1 and isinstance(r.ops[0], ast.Eq):
+                    a, b = r.left, r.comparators[0]
+                    for u, v in ((a, b), (b, a)):
+                        if ast.unparse(u) == want(repo, f"self.predict_leaves({pX})", fr, c) and _loop_idx(v, "self.leaves_index_"):
+                            okm = True
+                            lt = ast.unparse(v)
+                ck.verdict(okm, "C09.a", fr, f"leaf mask {rows}", "leaf i's rows are those predict_leaves maps to i (i = position in leaves_index_)", f"the rows of leaf i are selected by {rows}, not by self.predict_leaves({pX}) == i")
+            beta = calls(fr, lambda c_: isinstance(c_.func, ast.Attribute) and c_.func.attr == "node_beta")
+            okb = False
+            if len(beta) == 1 and beta[0].args:
+                tgt = ex.norm_expr(beta[0].args[0], fr, beta[0])
+                if isinstance(tgt, ast.Subscript) and ast.unparse(tgt.value) == "self.betas_":
+                    sl = tgt.slice
+                    first = sl.elts[0] if isinstance(sl, ast.Tuple) else sl
+                    rest = sl.elts[1:] if isinstance(sl, ast.Tuple) else []
+                    okb = lt is not None and ast.unparse(first) == lt and all(isinstance(x, ast.Slice) and x.lower is None and x.upper is None for x in rest)
+                recv = ex.text(beta[0].func.value, fr, beta[0])
+                okb = okb and recv == ex.text(c, fr, c)
+            ck.verdict(okb, "C09.a", fr, beta[0] if beta else "dec.node_beta(self.betas_[i, :])", "coefficients of leaf i (solved on its rows) stored in row i of betas_", "coefficients are not stored in the row of their own leaf, or do not come from the regression built on the leaf's rows")
+            if beta:
+                loops = [p_ for p_ in _parents(beta[0]) if isinstance(p_, ast.For)]
+                base_c = conds_at(repo, fr, loops[0].body[0]) if loops else frozenset()
+                ck.verdict(bool(loops) and conds_at(repo, fr, beta[0]) == base_c, "C09.a", fr, "leaf loop body reaches node_beta", "every leaf's coefficients come from the least-squares solver", "some leaves skip the least-squares solve (conditional / early continue): their prediction is not the OLS fit of the leaf's rows")
+    stores = [x for x in own_nodes(fr.node) if isinstance(x, (ast.Assign, ast.AugAssign)) and any(isinstance(t, ast.Subscript) and src_of(t.value) == "self.betas_" for t in (x.targets if isinstance(x, ast.Assign) else [x.target]))]
+    ck.verdict(not stores, "C09.a", fr, stores[0] if stores else "no direct store into self.betas_[...]", "betas_ rows are written only by node_beta", "betas_ is also written directly, bypassing the per-leaf least squares")
+    shp = [t.replace(" ", "") for _, t in self_attr_value_texts(repo, fr, "betas_")]
+    dims = ctext(f"(len(self.leaves_index_), {pX}.shape[1] + 1)").replace(" ", "")
+    ck.verdict(len(shp) == 1 and any(shp[0].startswith(f"numpy.{f}({dims}") for f in ("empty", "zeros")), "C09.a", fr, f"self.betas_ = {shp}", "betas_ has one row per leaf and n_features + 1 columns", "betas_ is not (number of leaves) x (n_features + 1)")
     # predict side
-    lv = [s for s in own_nodes(pr.node) if isinstance(s, ast.Assign) and src_of(s.targets[0]) == "leaves"]
-    ck.verdict(len(lv) == 1 and src_of(lv[0].value) == "self.predict_leaves(X)", "C09.a", pr, lv[0] if lv else "leaves = self.predict_leaves(X)", "query rows are numbered by the same predict_leaves", "predict does not number leaves through predict_leaves")
-    hs = [c for c in own_nodes_incl_lambda(pr.node) if isinstance(c, ast.Call) and src_of(c.func) == "numpy.hstack"]
-    okh = False
-    if len(hs) == 1 and hs[0].args and isinstance(hs[0].args[0], (ast.List, ast.Tuple)) and len(hs[0].args[0].elts) == 2:
-        a, b = hs[0].args[0].elts
-        ones = [s for s in own_nodes(pr.node) if isinstance(s, ast.Assign) and src_of(s.targets[0]) == src_of(b) and "numpy.ones" in src_of(s.value)]
-        okh = src_of(a) == "X" and bool(ones)
-    ck.verdict(okh, "C09.a", pr, hs[0] if hs else "numpy.hstack([X, ones])", "the intercept column is appended after the features", "the constant column is not appended last: coefficients are applied to the wrong features")
+    pXp = pr.named_params[1]
+    dots = [c for c in own_nodes_incl_lambda(pr.node) if (isinstance(c, ast.Call) and src_of(c.func) in ("numpy.dot", "numpy.matmul", "numpy.inner")) or (isinstance(c, ast.BinOp) and isinstance(c.op, ast.MatMult))]
+    okd = okh = False
+    if len(dots) == 1:
+        d = dots[0]
+        a, b = (d.args[0], d.args[1]) if isinstance(d, ast.Call) and len(d.args) == 2 else ((d.left, d.right) if isinstance(d, ast.BinOp) else (None, None))
+        if a is not None:
+            st = stmt_of(d)
+            xa, xb = ex.norm_expr(a, pr, st), ex.norm_expr(b, pr, st)
+            # features row i (with the constant appended last) times betas_[leaf of row i]
+            if isinstance(xa, ast.Subscript) and isinstance(xb, ast.Subscript) and ast.unparse(xb.value) == "self.betas_":
+                ia = xa.slice.elts[0] if isinstance(xa.slice, ast.Tuple) else xa.slice
+                ib = xb.slice.elts[0] if isinstance(xb.slice, ast.Tuple) else xb.slice
+                okd = _loop_idx(ia, pXp) and isinstance(ib, ast.Subscript) and ast.unparse(ib.value) == want(repo, f"self.predict_leaves({pXp})", pr, st) and ast.unparse(ib.slice) == ast.unparse(ia)
+                feats = ast.unparse(xa.value).replace(" ", "")
+                ones = f"numpy.ones(({pXp}.shape[0],1))"
+                okh = feats in (f"numpy.hstack([{pXp},{ones}])", f"numpy.hstack(({pXp},{ones}))", f"numpy.column_stack([{pXp},{ones}])", f"numpy.column_stack(({pXp},{ones}))", f"numpy.c_[{pXp},{ones}]")
+    ck.verdict(okd, "C09.a", pr, dots[0] if len(dots) == 1 else "numpy.dot(Xone[i, :], self.betas_[leaves[i], :])", "row i uses the coefficients of its own leaf (numbered by the same predict_leaves)", "a row is not multiplied by the coefficients of its own leaf")
+    ck.verdict(okh, "C09.a", pr, "numpy.hstack([X, ones])", "the intercept column is appended after the features", "the constant column is not appended last: coefficients are applied to the wrong features")
     # the features multiplied by betas_ are the caller's values, not a float32-rounded copy
     LOSSY = ("_validate_X_predict", "float32")
-    rebinds = [x for x in own_nodes(pr.node) if isinstance(x, ast.Assign) and any(isinstance(t, ast.Name) and t.id == "X" for t in x.targets)]
+    rebinds = [x for x in own_nodes(pr.node) if isinstance(x, ast.Assign) and any(isinstance(t, ast.Name) and t.id == pXp for t in x.targets)]
     lossy = [x for x in rebinds if any(k in src_of(x.value) for k in LOSSY)]
     ck.verdict(not lossy, "C09.a", pr, lossy[0] if lossy else "X is not re-typed before the linear model", "coefficients fitted on float64 rows are applied to the same values", "X is converted to the tree's float32 input type before the per-leaf linear model is applied: betas_ were fitted on float64 rows, so predictions differ from the least-squares fit evaluated at the row")
-    dots = [c for c in own_nodes_incl_lambda(pr.node) if isinstance(c, ast.Call) and src_of(c.func) == "numpy.dot"]
-    okd = False
-    if len(dots) == 1 and len(dots[0].args) == 2:
-        a, b = [src_of(x) for x in dots[0].args]
-        li = [s for s in own_nodes(pr.node) if isinstance(s, ast.Assign) and src_of(s.targets[0]) == "li"]
-        okd = a == "Xone[i, :]" and b == "self.betas_[li, :]" and len(li) == 1 and src_of(li[0].value) == "leaves[i]"
-    ck.verdict(okd, "C09.a", pr, dots[0] if dots else "numpy.dot(Xone[i, :], self.betas_[li, :])", "row i uses the coefficients of its own leaf", "a row is not multiplied by the coefficients of its own leaf")
-    # predict_leaves maps argmax over the columns of leaves_index_
-    body = [src_of(s) for s in own_nodes(pl.node) if isinstance(s, (ast.Assign, ast.Return))]
-    okp = "leaves = self.decision_path(X)" in body and "leaves = leaves[:, self.leaves_index_]" in body and any(b.startswith("mat = numpy.argmax(leaves, 1)") or b.startswith("mat = numpy.argmax(leaves, axis=1)") for b in body)
+    # predict_leaves = argmax over the columns of leaves_index_
+    rs = returns(repo, pl)
+    okp = False
+    if len(rs) == 1:
+        try:
+            v = _unwrap_rows(ast.parse(rs[0][1], mode="eval").body)
+        except SyntaxError:
+            v = None
+        if isinstance(v, ast.Call) and ast.unparse(v.func) in ("numpy.argmax",) and v.args:
+            ax = v.args[1] if len(v.args) > 1 else next((k.value for k in v.keywords if k.arg == "axis"), None)
+            okp = ast.unparse(v.args[0]) == f"self.decision_path({pl.named_params[1]})[:, self.leaves_index_]" and ax is not None and ast.unparse(ax) == "1"
+        elif isinstance(v, ast.Call) and isinstance(v.func, ast.Attribute) and v.func.attr == "argmax":
+            ax = v.args[0] if v.args else next((k.value for k in v.keywords if k.arg == "axis"), None)
+            okp = ast.unparse(v.func.value) == f"self.decision_path({pl.named_params[1]})[:, self.leaves_index_]" and ax is not None and ast.unparse(ax) == "1"
     ck.verdict(okp, "C09.a", pl, "argmax over decision_path(X)[:, leaves_index_]", "leaf number = position of the row's leaf in leaves_index_", "predict_leaves no longer returns the position of the row's leaf within leaves_index_")
     # cross-language: constant feature written after the feature loop
     try:
@@ -113,6 +171,13 @@ def check_a(ck, repo):
         ck.verdict(nb == ["self.n_features + 1"], "C09.a", None, f"self.nbvar = {nb}", "nbvar = n_features + 1 (features + intercept)", "nbvar is not n_features + 1", file=LINEAR, function="LinearRegressorCriterion.__cinit__", line=0)
     except ImportError as e:
         ck.unknown("C09.a", None, "Cython parser", str(e), file=LINEAR, function="-", line=0)
+
+
+def _parents(n):
+    p = getattr(n, "_parent", None)
+    while p is not None:
+        yield p
+        p = getattr(p, "_parent", None)
 
 
 def _calls(fn, name):
@@ -167,9 +232,16 @@ def check_b(ck, repo):
     # impurity_improvement: weighted by the right side for the right impurity, the left side for the left
     fn = c.methods.get("impurity_improvement")
     if fn is not None:
-        t = " ".join(src_of(s) for s in ast.walk(fn) if isinstance(s, ast.Return))
-        ok = "self.weighted_n_right / weight * impurity_right" in t and "self.weighted_n_left / weight * impurity_left" in t and "impurity_parent -" in t
-        ck.verdict(ok, "C09.b", None, "impurity_improvement", "parent - (w_right/w) right - (w_left/w) left", "improvement does not weight each child's impurity by its own side", file=COMMON, function="CommonRegressorCriterion.impurity_improvement", line=fn.lineno)
+        cfi = cy_fi(cm, "CommonRegressorCriterion", "impurity_improvement")
+        rs = [t for _, t in cy_returns(repo, cfi)]
+        W = "self.weighted_n_node_samples"
+        forms = set()
+        for r_ in (f"self.weighted_n_right / {W} * impurity_right", f"impurity_right * self.weighted_n_right / {W}", f"self.weighted_n_right * impurity_right / {W}"):
+            for l_ in (f"self.weighted_n_left / {W} * impurity_left", f"impurity_left * self.weighted_n_left / {W}", f"self.weighted_n_left * impurity_left / {W}"):
+                for body in (f"impurity_parent - ({r_}) - ({l_})", f"impurity_parent - ({l_}) - ({r_})", f"impurity_parent - (({r_}) + ({l_}))", f"impurity_parent - (({l_}) + ({r_}))"):
+                    forms.add(ctext(f"{W} / self.weighted_n_samples * ({body})"))
+        ok = len(rs) >= 1 and rs[-1] in forms
+        ck.verdict(ok, "C09.b", None, "impurity_improvement", "N_t/N * (parent - (w_right/N_t) right - (w_left/N_t) left)", f"improvement is {rs[-1] if rs else None}: each child's impurity is not weighted by its own side", file=COMMON, function="CommonRegressorCriterion.impurity_improvement", line=fn.lineno)
 
 
 def _prefix_read(e: ast.AST) -> Optional[Tuple[str, str, Optional[str], bool]]:
